@@ -21,6 +21,8 @@ type effects struct {
 	allNonDoc bool            // callees with inferred summaries: everything but the document heap may be written
 	allocates bool
 	cells     map[*ssa.Alloc]bool
+	hardAll   bool       // all was set by something other than a contract with an unstated frame
+	unknown   [][]string // the keeps lists of the called contracts with unstated frames
 }
 
 func (g *gen) staticHeapName(addr ssa.Value) (string, *ssa.Alloc) {
@@ -126,6 +128,7 @@ func (g *gen) scanEffects(blocks map[*ssa.BasicBlock]bool) *effects {
 				ef.strong[g.iterVar(x)] = true
 			case *ssa.Go, *ssa.Select, *ssa.Send:
 				ef.all = true
+				ef.hardAll = true
 			case *ssa.Call:
 				g.callEffects(&x.Call, ef)
 			case *ssa.Defer:
@@ -168,16 +171,30 @@ func (g *gen) nameAt(b *ssa.BasicBlock, st *state, phiVal func(*ssa.Phi) string)
 				return g.goVal(phiVal(p), p.Type()), true
 			}
 		}
-		// debug refs
+		// debug refs (and, for a site inside block b, the refs of b before the site; a phi named like the
+		// variable in a dominating loop header is a definition at the start of that block)
 		var best *ssa.DebugRef
+		var bestPhi *ssa.Phi
+		var bestBlk *ssa.BasicBlock
 		for _, blk := range g.fn.Blocks {
 			if blk != b && !blk.Dominates(b) {
 				continue
 			}
-			if blk == b {
+			if blk == b && g.siteInstr == nil {
 				continue
 			}
 			for _, in := range blk.Instrs {
+				if blk == b && in == g.siteInstr {
+					break
+				}
+				if p, ok := in.(*ssa.Phi); ok {
+					if blk != b && p.Comment == name {
+						if _, have := g.vals[p]; have && (bestBlk == nil || bestBlk.Dominates(blk)) {
+							best, bestPhi, bestBlk = nil, p, blk
+						}
+					}
+					continue
+				}
 				d, ok := in.(*ssa.DebugRef)
 				if !ok {
 					continue
@@ -189,10 +206,16 @@ func (g *gen) nameAt(b *ssa.BasicBlock, st *state, phiVal func(*ssa.Phi) string)
 				if _, isVar := obj.(*types.Var); !isVar {
 					continue
 				}
-				if best == nil || best.Block() == blk || best.Block().Dominates(blk) {
-					best = d
+				if obj.Pkg() != nil && obj.Parent() == obj.Pkg().Scope() {
+					continue // a package-level variable: its value is read from the current state, not from a use
+				}
+				if bestBlk == nil || bestBlk == blk || bestBlk.Dominates(blk) {
+					best, bestPhi, bestBlk = d, nil, blk
 				}
 			}
+		}
+		if bestPhi != nil {
+			return g.goVal(g.vals[bestPhi], bestPhi.Type()), true
 		}
 		if best != nil {
 			if best.IsAddr {
@@ -306,7 +329,20 @@ func (g *gen) enterLoop(li *loopInfo, b *ssa.BasicBlock, st *state, phis []*ssa.
 	}
 	_ = st.top
 	if ef.all {
-		g.newEpoch(st, func(name, r string) string { return g.privateKeep(name, r) }, true)
+		g.newEpoch(st, func(name, r string) string {
+			if !ef.hardAll && !ef.strong[name] && !ef.allNonDoc {
+				kept := len(ef.unknown) > 0
+				for _, ks := range ef.unknown {
+					if !keepsHeap(ks, name) {
+						kept = false
+					}
+				}
+				if kept {
+					return "true"
+				}
+			}
+			return g.privateKeep(name, r)
+		}, true)
 	} else {
 		strong := ef.strong
 		alloc := ef.allocates
@@ -679,4 +715,45 @@ func addrRoot(v ssa.Value) ssa.Value {
 			return v
 		}
 	}
+}
+
+// keepsHeap: does a contract's keeps list cover heap variable name? ("nonnil:" clauses keep nothing.)
+func keepsHeap(keys []string, name string) bool {
+	for _, k := range keys {
+		switch {
+		case strings.HasPrefix(k, "nonnil:"):
+		case k == "list.*":
+			if name == listLenHeap || name == listValHeap {
+				return true
+			}
+		case strings.HasPrefix(k, "var."):
+			if name == "G.yqlib."+strings.TrimPrefix(k, "var.") {
+				return true
+			}
+		case strings.HasSuffix(k, ".*"):
+			p := "H.yqlib." + strings.TrimSuffix(k, "*")
+			if strings.HasPrefix(name, p) && !strings.Contains(name[len(p):], ".") {
+				return true
+			}
+		default:
+			if name == "H.yqlib."+k {
+				return true
+			}
+		}
+	}
+	return false
+}
+
+// unknownFrame: a contract whose frame nobody checks (trusted, noframe) and that states none (ghost state
+// aside) promises nothing about the heap.
+func unknownFrame(con *Contract) bool {
+	if con == nil || con.ModNothing || !(con.flag("trusted") || con.flag("noframe")) || con.flag("extern") || con.flag("pure") || con.ReadonlyIf != nil || con.flag("docframe-only") {
+		return false
+	}
+	for _, m := range con.Modifies {
+		if id, ok := m.Expr.(*ast.Ident); !ok || fileGhosts[id.Name] == "" {
+			return false
+		}
+	}
+	return true
 }
